@@ -10,6 +10,7 @@ import (
 
 	"github.com/buildbuildio/pebbles/planner"
 	"github.com/buildbuildio/pebbles/requests"
+	"github.com/buildbuildio/pebbles/verifhook"
 	"github.com/gobwas/ws"
 	"github.com/gobwas/ws/wsutil"
 	"github.com/vektah/gqlparser/v2"
@@ -20,6 +21,7 @@ type subscriptionDict map[string]*subscriptionEntry
 
 func (sd subscriptionDict) Clean(key string) {
 	if subEntry, ok := sd[key]; ok {
+		verifhook.At("sub.Clean.beforeGoClose")
 		go subEntry.Close()
 		delete(sd, key)
 	}
@@ -42,6 +44,7 @@ func sendHeartbeat(ctx context.Context, conn net.Conn) error {
 	for {
 		select {
 		case <-timeTicker.C:
+			verifhook.At("sub.heartbeat.beforeWrite")
 			if err := wsutil.WriteServerText(conn, bMsg); err != nil {
 				return err
 			}
@@ -72,6 +75,7 @@ func (g *Gateway) subscriptionHandler(w http.ResponseWriter, r *http.Request) {
 		defer func() {
 			recover()
 		}()
+		verifhook.At("sub.handler.deferEnter")
 		// gracefully close connection
 		body := ws.NewCloseFrameBody(ws.StatusNormalClosure, "")
 		frame := ws.NewCloseFrame(body)
@@ -151,6 +155,7 @@ func (g *Gateway) subscriptionHandler(w http.ResponseWriter, r *http.Request) {
 
 			subDict[subMsg.ID] = subEntry
 
+			verifhook.At("sub.handler.beforeGoListen")
 			go subEntry.Listen(conn)
 
 		// Stop running operations
